@@ -697,6 +697,34 @@ where
             obs.fail(format!("[{route}] residual(false) failed: {e}"))
         }
     }
+    // ---- the same uniform profile under the particle-number specifications taken from the profile:
+    // the bulk part of the Euler-Lagrange residual (the equations that enforce N) vanishes too ----
+    if el_ok {
+        for (name, spec) in [
+            ("Moles", feos::dft::DFTSpecifications::moles_from_profile(&profile)),
+            ("TotalMoles", feos::dft::DFTSpecifications::total_moles_from_profile(&profile)),
+        ] {
+            let mut p2 = profile.clone();
+            p2.specification = spec;
+            match p2.residual(false) {
+                Ok((res, res_bulk, _)) => {
+                    let mut worst = 0.0f64;
+                    for (s, r) in res.outer_iter().enumerate() {
+                        worst = worst.max(max_abs_dev(r.iter(), 0.0) / b.rho_seg[s]);
+                    }
+                    let wb = res_bulk.iter().zip(b.rho_seg.iter()).map(|(r, rho)| r.abs() / rho).fold(0.0, f64::max);
+                    note(&format!("residual under {name} from profile: max |res_bulk|/rho [{akey}]"), wb);
+                    obs.ensure(worst <= tol_r, || format!("[{route}] residual(false) with {name} from the profile: max |res|/rho = {worst:e}"));
+                    obs.ensure(wb <= tol_r, || format!("[{route}] bulk residual with {name} from the profile: max |res_bulk|/rho = {wb:e} ({res_bulk:?})"));
+                }
+                Err(e) => {
+                    if !assoc_err(obs, "residual", &e) {
+                        obs.fail(format!("[{route}] residual(false) with {name} from the profile failed: {e}"))
+                    }
+                }
+            }
+        }
+    }
     match profile.residual(true) {
         Ok(_) if !el_ok => {}
         Ok((res, _, _)) => {
